@@ -44,6 +44,16 @@ func (c *OpenIDConnectDeviceHandler) PopulateTokenEndpointResponse(ctx context.C
 		return errorsx.WithStack(fosite.ErrServerError.WithDebug("Failed to generate id token because session must be of type fosite/handler/openid.Session."))
 	}
 
+	// The storage may hand the same request object to concurrent polls of one device code: mint the ID token from
+	// a private copy instead of writing to the stored one. (DeviceRequest.Sanitize works in place and returns its
+	// receiver, so the copy is built by hand.)
+	if cloned, ok := session.Clone().(Session); ok {
+		private := fosite.NewRequest()
+		private.Merge(ar)
+		private.SetSession(cloned)
+		ar, session = private, cloned
+	}
+
 	claims := session.IDTokenClaims()
 	if claims.Subject == "" {
 		return errorsx.WithStack(fosite.ErrServerError.WithDebug("Failed to generate id token because subject is an empty string."))
